@@ -53,7 +53,7 @@ CLAIMED = {
     ref="4/C09"),
  "C10": dict(
     technique="bounded-exhaustive schedule enumeration + random schedules with entry-invariant and transparency (metamorphic) oracles",
-    text="Every single interrupt placement (and all/sampled pairs) over the step boundaries of short generated programs, random schedules with keyboard and seeded timer interrupts on longer ones; entry checks (pending, priority strictly higher, highest pending, saved PC = next instruction, saved PSR, user SP saved) one handler calls a TRAP itself (only RTI may lower the priority level, checked at every step), and equality of final registers, PSR, user memory and output with the uninterrupted run.",
+    text="Every single interrupt placement (and all/sampled pairs) over the step boundaries of short generated programs, random schedules with keyboard and seeded timer interrupts on longer ones; entry checks (pending, priority strictly higher, highest pending, saved PC = next instruction, saved PSR, user SP saved) one handler calls a TRAP itself, another prints an empty string with PUTS (reentrancy of the OS routines) (only RTI may lower the priority level, checked at every step), and equality of final registers, PSR, user memory and output with the uninterrupted run.",
     note="Interrupt sources are harness devices (level-held); handlers are generated save/restore routines; timing = step boundaries because devices are polled once per step.",
     ref="4/C10, 6"),
  "C11": dict(
@@ -63,7 +63,7 @@ CLAIMED = {
     ref="4/C11"),
  "C12": dict(
     technique="differential property-based testing: the same generated program under virtual and real traps",
-    text="Generated user programs ending in HALT or in one of six injected faults run under both settings from identical machines: halting programs give equal display, R0-R5 and user memory; faulting programs give the matching error (virtual) and the OS message after the same output, then halt (real).",
+    text="Generated user programs (incl. faults raised while a subroutine frame is open and leaf subroutines that do not spill R7 around their I/O traps) ending in HALT or in one of six injected faults run under both settings from identical machines: halting programs give equal display, R0-R5 and user memory; faulting programs give the matching error (virtual) and the OS message after the same output, then halt (real).",
     note="Expected OS messages are the documented strings.",
     ref="4/C12"),
  "C13": dict(
@@ -108,7 +108,7 @@ CLAIMED = {
     ref="4/C30"),
  "C31": dict(
     technique="property-based twin-run testing (two independently built simulators per configuration) plus a Known-fill invariant",
-    text="Same program, seed and seeded timer on two simulators: per-step traces (PC, PSR, registers, counts, digest of all memory incl. init masks every 64 steps, output) must be identical, also when the history continues with (reset and) loading an object file with reserved words over the used machine and more steps; Known{v} fills every register and every word outside OS image and I/O page with v.",
+    text="Same program, seed and seeded timer on two simulators: per-step traces (PC, PSR, registers, counts, digest of all memory incl. init masks every 64 steps, output) must be identical, also when the history continues with (reset and) loading an object file with reserved words over the used machine and more steps; a third of the timers start with an exact count and are widened with set_range; Known{v} fills every register and every word outside OS image and I/O page with v.",
     note="OS image addresses are recognised as words that do not depend on the fill value.",
     ref="4/C31"),
  "C32": dict(
@@ -143,7 +143,7 @@ CLAIMED = {
     ref="4/C19"),
  "C20": dict(
     technique="model-based property testing: all link orders and bracketings of generated file sets against a set-union link model",
-    text="2-4 generated files with shared/conflicting/external labels and touching/overlapping blocks (address grid based at x0000, x3000 or xFD00, so that address 0 is a definition address) are linked in every order and bracketing (2/12/120 trees); success, image, labels, external flags and pending relocations (observed by linking a probe definer) must equal the model for every tree.",
+    text="2-4 generated files with shared/conflicting/external labels and touching/overlapping blocks (address grid based at x0000, x3000 or xFD00, so that address 0 is a definition address; sometimes one label defined at the same address in two files) are linked in every order and bracketing (2/12/120 trees); success, image, labels, external flags and pending relocations (observed by linking a probe definer) must equal the model for every tree.",
     note="Pending relocations are observed behaviourally (probe file), not by parsing a serialization.",
     ref="4/C20"),
  "C21": dict(
@@ -173,7 +173,7 @@ CLAIMED = {
     ref="4/C25"),
  "C26": dict(
     technique="property-based testing with fault injection: span accessors of every assembler/linker error",
-    text="The faulty programs of C02 and failing links (file vs origin-shifted copy) produce errors whose span(), first() and iter() are exercised under catch_unwind; assembly spans must lie inside the source on char boundaries and, for label errors, cover a spelling of an offending label.",
+    text="The faulty programs of C02 (half of them rendered in a free layout: no final newline, CRLF, trailing blanks and comments) and failing links (file vs origin-shifted copy) produce errors whose span(), first() and iter() are exercised under catch_unwind; assembly spans must lie inside the source on char boundaries and, for label errors, cover a spelling of an offending label.",
     note="Offending labels come from the independent assembler model.",
     ref="4/C26"),
  "C36": dict(
